@@ -21,7 +21,7 @@ RULE = (
     'when s_i = 0) compared with numpy.allclose defaults (rtol 1e-5, atol '
     '1e-8, the absolute term scaled down to 1e-6*T_min for minute values); T = T_min at and below the lowest knot; monotone non-decreasing '
     'over the sorted levels (relative slack 1e-9); continuity across knots; '
-    'scalar, list and array arguments agree. Non-trivial: some level lies '
+    'scalar, list, array, reversed-view and permuted-array arguments agree to 1e-12 relative and each is held against the closed form; levels include 0.0, -0.0 and round values. Non-trivial: some level lies '
     'above >= 2 knots and the conductivity contrast along the path is >= '
     '1e3; distinct = SHA-1 of the canonical case.'
 )
@@ -59,8 +59,15 @@ def cases(draw):
         levels.extend([zi, zi - 1e-6, zi + 1e-6])
     extra = draw(st.lists(st.floats(z[0] - 10.0, z[-1]), max_size=3))
     levels.extend(extra)
+    # the peat surface and other round levels (a grid such as
+    # linspace(-350, 400, 16) contains 0.0 exactly)
+    levels.extend(v for v in (0.0, -1.0, 1.0, -100.0, 10.0, float(int(z[-1])))
+                  if z[0] - 400.0 <= v <= z[-1])
     levels = sorted(set(min(max(v, z[0] - 400.0), z[-1]) for v in levels))
-    return {'params': params, 'levels': levels}
+    if draw(st.booleans()) and z[0] - 400.0 <= 0.0 <= z[-1]:
+        levels.insert(levels.index(0.0), -0.0)
+    order = draw(st.permutations(range(len(levels))))
+    return {'params': params, 'levels': levels, 'order': list(order)}
 
 
 def check(case):
@@ -76,33 +83,51 @@ def check(case):
     # a reversed view (negative stride), as in np.linspace(a, b, n)[::-1]
     rev = np.asarray(guarded(T, np.array(levels, dtype=float)[::-1]),
                      dtype=float)
-    if rev.shape != (len(levels),) or not (rev[::-1] == arr).all():
-        raise Violation('array-scalar-mismatch',
-                        'reversed view: {!r} vs {!r}'.format(
-                            rev[::-1].tolist()[:4], arr.tolist()[:4]))
-    if arr.shape != (len(levels),) or lst.shape != (len(levels),):
+    if (arr.shape != (len(levels),) or lst.shape != (len(levels),)
+            or rev.shape != (len(levels),)):
         raise Violation('array-shape', repr(arr.shape))
-    for s, a, l in zip(scalars, arr, lst):
-        if not (s == a == l):
-            raise Violation('array-scalar-mismatch', repr((s, a, l)))
+    views = [('scalar', scalars), ('array', arr.tolist()),
+             ('list', lst.tolist()), ('reversed view', rev[::-1].tolist())]
+    order = case.get('order')
+    if order:
+        # the same levels in another order
+        mixed = np.asarray(guarded(
+            T, np.array([levels[i] for i in order], dtype=float)),
+            dtype=float)
+        if mixed.shape != (len(levels),):
+            raise Violation('array-shape', repr(mixed.shape))
+        back = [None] * len(levels)
+        for position, i in enumerate(order):
+            back[i] = float(mixed[position])
+        views.append(('permuted array', back))
+    # "the same values": the array is today a loop over the scalar code;
+    # an implementation that integrates in another order may differ in the
+    # last places, one that differs by more does not give the same values
+    for name, values in views[1:]:
+        for level, s, a in zip(levels, scalars, values):
+            if not abs(s - a) <= 1e-12 * abs(s):
+                raise Violation(
+                    'array-scalar-mismatch',
+                    '{} at {!r}: {!r}, scalar call {!r}'.format(
+                        name, level, a, s))
     contrast = max(K) / min(K)
     worst = None
-    for level, got in zip(levels, scalars):
-        want = closed_form(params, level)
-        if level <= z[0]:
-            if got != tmin:
-                raise Violation('not-minimum-at-or-below-lowest-knot',
-                                'T({!r})={!r}, minimum {!r}'.format(
-                                    level, got, tmin))
-            continue
-        # numpy.allclose defaults, except that the absolute term is scaled
-        # down for minute transmissivities (tight subsoil, K << 1e-8 km/d)
-        if not abs(got - want) <= 1e-5 * abs(want) + min(1e-8, 1e-6 * tmin):
-            gaps = [b - a for a, b in zip(z[:-1], z[1:])]
-            detail = 'T({!r})={!r}, closed form {!r}, knots {} K {}'.format(
-                level, got, want, z, K)
-            raise Violation('transmissivity-not-integral-of-conductivity',
-                            detail)
+    for name, values in views:
+        for level, got in zip(levels, values):
+            want = closed_form(params, level)
+            if level <= z[0]:
+                if got != tmin:
+                    raise Violation('not-minimum-at-or-below-lowest-knot',
+                                    'T({!r})={!r} ({}), minimum {!r}'.format(
+                                        level, got, name, tmin))
+                continue
+            # numpy.allclose defaults, except that the absolute term is scaled
+            # down for minute transmissivities (tight subsoil, K << 1e-8 km/d)
+            if not abs(got - want) <= 1e-5 * abs(want) + min(1e-8, 1e-6 * tmin):
+                detail = ('T({!r})={!r} ({}), closed form {!r}, knots {} '
+                          'K {}'.format(level, got, name, want, z, K))
+                raise Violation('transmissivity-not-integral-of-conductivity',
+                                detail)
     for (la, ta), (lb, tb) in zip(
             zip(levels[:-1], scalars[:-1]), zip(levels[1:], scalars[1:])):
         if tb < ta * (1 - 1e-9) - 1e-12:
